@@ -16,7 +16,15 @@
      before its xtors are looked up (flag [eager] = true; [eager] = false is the code before that
      fix, kept for the regression statements);
    - case/new clauses are re-ordered into declaration order using Vec::swap_remove;
-   - NameContext::no_dups reports TypeParameterBoundMultipleTimes.
+   - NameContext::no_dups reports TypeParameterBoundMultipleTimes;
+   - since fix <commit15> Ty::check_template checks the types written in data/codata declarations
+     completely (a type parameter takes no arguments, a template as many as it has parameters, the
+     arguments recursively) WITHOUT creating instances; [old_ty_check_template] .. [old_check_decls]
+     are the code before that fix (head name only; finding C15-lazy-declaration-types), kept for the
+     regression statements;
+   - since fix <commit12> Def::check compares the declared return type of `main` with i64
+     (check_equality: Mismatch); [old_def_check] .. [old_check_main] are the code before that fix
+     (finding main-non-integer-result of C12), kept for the regression statements.
    Errors are the variants of typing::errors::Error without their payload. No proofs here. *)
 From Coq Require Import List ZArith NArith String Ascii Bool.
 From SCC Require Import Base.Sexp Lang.SynUtil Lang.FunSyn.
@@ -552,12 +560,27 @@ Definition build_symbol_table (p : fprog) : cres symtab :=
   COk st.
 
 (* ---------- declarations: Data::check, Codata::check (check_template), Def::check ---------- *)
-Definition ty_check_template (st : symtab) (params : fnamectx) (t : fty) : cres unit :=
+(* types.rs: Ty::check_template.  `expected` = the number of type arguments the head takes: the number
+   of parameters of the template of that name, 0 for a type parameter of the enclosing template *)
+Definition template_arity (st : symtab) (params : fnamectx) (name : fname) : option nat :=
+  match aget (st_type_templates st) name with
+  | Some (_, tparams, _) => Some (List.length tparams)
+  | None => if mem_name name params then Some 0%nat else None
+  end.
+Fixpoint ty_check_template (st : symtab) (params : fnamectx) (t : fty) {struct t} : cres unit :=
   match t with
   | FI64 => COk tt
-  | FDecl name _ =>
-      if ahas (st_type_templates st) name then COk tt
-      else if mem_name name params then COk tt else CErr EUndefined
+  | FDecl name targs =>
+      match template_arity st params name with
+      | None => CErr EUndefined
+      | Some expected =>
+          if negb (Nat.eqb (List.length targs) expected) then CErr EWrongNumberOfTypeArguments
+          else (fix go (l : list fty) : cres unit :=
+                  match l with
+                  | [] => COk tt
+                  | a :: r => doc _ <- ty_check_template st params a; go r
+                  end) targs
+      end
   end.
 Fixpoint ctx_check_template (st : symtab) (params : fnamectx) (c : fctx) : cres unit :=
   match c with
@@ -579,10 +602,14 @@ Fixpoint codata_check (st : symtab) (params : fnamectx) (ds : list fdtorsig) : c
   end.
 Definition check_term : fterm -> checker := check_term_gen true.
 
+(* def.rs: Def::check.  `if self.name == "main" { check_equality(.., &Ty::mk_i64(), &self.ret_ty)? }` *)
+Definition main_ret_check (d : fdef) (st : symtab) : cres symtab :=
+  if String.eqb (fdname d) "main" then check_equality st FI64 (fdret d) else COk st.
 Definition def_check_gen (eager : bool) (d : fdef) (st : symtab) : cres (fdef * symtab) :=
   doc _ <- ctx_no_dups (fdctx d);
   doc st1 <- ctx_check (fdctx d) st;
   doc st2 <- ty_check (fdret d) st1;
+  doc st2 <- main_ret_check d st2;
   doc (body', st3) <- check_term_gen eager (fdbody d) st2 (fdctx d) (fdret d);
   COk (mkfdef (fdname d) (fdctx d) (fdret d) body', st3).
 Definition def_check := def_check_gen true.
@@ -673,3 +700,66 @@ Definition check_gen (eager : bool) (p : fprog) : cres fcprog :=
 Definition check : fprog -> cres fcprog := check_gen true.
 (* the checker before fix d524b1f (instance-order defect), for the regression statements *)
 Definition check_before_fix : fprog -> cres fcprog := check_gen false.
+
+(* ---------- the code before the two fixes, for the regression statements ----------
+   [old_check_gen strict_decls main_i64]: Program::check with the declaration types checked completely
+   (strict_decls = true, the code since fix <commit15>) or by head name only (false, the code before it), and with
+   (main_i64 = true, since fix <commit12>) or without (false) the comparison of main's return type with i64.
+   old_check_gen true true = check (Proof/CheckOld.v old_check_gen_current). *)
+Definition old_ty_check_template (st : symtab) (params : fnamectx) (t : fty) : cres unit :=
+  match t with
+  | FI64 => COk tt
+  | FDecl name _ =>
+      if ahas (st_type_templates st) name then COk tt
+      else if mem_name name params then COk tt else CErr EUndefined
+  end.
+Fixpoint old_ctx_check_template (st : symtab) (params : fnamectx) (c : fctx) : cres unit :=
+  match c with
+  | [] => COk tt
+  | b :: r => doc _ <- old_ty_check_template st params (fbty b); old_ctx_check_template st params r
+  end.
+Fixpoint old_data_check (st : symtab) (params : fnamectx) (cs : list fctorsig) : cres unit :=
+  match cs with
+  | [] => COk tt
+  | c :: r => doc _ <- old_ctx_check_template st params (fctargs c); old_data_check st params r
+  end.
+Fixpoint old_codata_check (st : symtab) (params : fnamectx) (ds : list fdtorsig) : cres unit :=
+  match ds with
+  | [] => COk tt
+  | d :: r =>
+      doc _ <- old_ctx_check_template st params (fdtargs d);
+      doc _ <- old_ty_check_template st params (fdtcont d);
+      old_codata_check st params r
+  end.
+Fixpoint old_check_type_decls (ds : list fdecl) (st : symtab) : cres unit :=
+  match ds with
+  | [] => COk tt
+  | FDData d :: r => doc _ <- old_data_check st (fdaparams d) (fdactors d); old_check_type_decls r st
+  | FDCodata d :: r => doc _ <- old_codata_check st (fcoparams d) (fcodtors d); old_check_type_decls r st
+  | FDDef _ :: r => old_check_type_decls r st
+  end.
+Definition old_def_check (main_i64 : bool) (d : fdef) (st : symtab) : cres (fdef * symtab) :=
+  doc _ <- ctx_no_dups (fdctx d);
+  doc st1 <- ctx_check (fdctx d) st;
+  doc st2 <- ty_check (fdret d) st1;
+  doc st2 <- (if main_i64 then main_ret_check d st2 else COk st2);
+  doc (body', st3) <- check_term (fdbody d) st2 (fdctx d) (fdret d);
+  COk (mkfdef (fdname d) (fdctx d) (fdret d) body', st3).
+Fixpoint old_check_defs (main_i64 : bool) (ds : list fdef) (st : symtab) : cres (list fdef * symtab) :=
+  match ds with
+  | [] => COk ([], st)
+  | d :: r =>
+      doc (d', st1) <- old_def_check main_i64 d st;
+      doc (r', st2) <- old_check_defs main_i64 r st1;
+      COk (d' :: r', st2)
+  end.
+Definition old_check_gen (strict_decls main_i64 : bool) (p : fprog) : cres fcprog :=
+  doc st <- build_symbol_table p;
+  doc _ <- (if strict_decls then check_type_decls (fpdecls p) st else old_check_type_decls (fpdecls p) st);
+  doc (defs, st1) <- old_check_defs main_i64 (defs_of (fpdecls p)) st;
+  doc (das, cos) <- collect_types st1 (st_types st1);
+  COk (mkfcprog (sort_by_name fdaname das) (sort_by_name fcoaname cos) defs).
+(* the checker before fix <commit15> (declaration types by head name only) *)
+Definition old_check_decls : fprog -> cres fcprog := old_check_gen false true.
+(* the checker before fix <commit12> (return type of main unconstrained) *)
+Definition old_check_main : fprog -> cres fcprog := old_check_gen true false.
